@@ -319,6 +319,12 @@ pub fn write_replay(dir: &str, prop: &str, f: &Failure, seed: u64) -> String {
         .s("source_hex", &hex(f.case.src.as_bytes()))
         .s("path", &f.case.path)
         .s("aux", &f.case.aux)
+        .s("path_hex", &hex(f.case.path.as_bytes()))
+        .s("stdin_hex", &hex(f.case.stdin.as_bytes()))
+        .s("rng", &f.case.rng.iter().map(|x| x.to_string()).collect::<Vec<_>>().join(","))
+        .n("fuel", f.case.fuel)
+        .s("tags", &f.case.tags.join(","))
+        .s("files_hex", &f.case.files.iter().map(|(p, c)| match c { Some(c) => format!("{}=f{}", hex(p.as_bytes()), hex(c.as_bytes())), None => format!("{}=d", hex(p.as_bytes())) }).collect::<Vec<_>>().join(","))
         .s("implementation", &f.impl_rec)
         .s("model", &f.model_rec)
         .s("detail", &f.detail)
@@ -332,4 +338,78 @@ pub fn write_replay(dir: &str, prop: &str, f: &Failure, seed: u64) -> String {
 
 pub fn mk_rng(seed: u64, stream: u64) -> Rng {
     Rng::new(seed ^ stream.wrapping_mul(0xA24BAED4963EE407))
+}
+
+/// the value of a top-level string (or bare number) field of a replay file written by `write_replay`
+fn field(text: &str, key: &str) -> Option<String> {
+    let pat = format!("\"{key}\":");
+    let i = text.find(&pat)? + pat.len();
+    let rest = text[i..].trim_start();
+    if let Some(r) = rest.strip_prefix('"') {
+        // hex / plain fields contain no escapes
+        Some(r[..r.find('"')?].to_string())
+    } else {
+        Some(rest.chars().take_while(|c| c.is_ascii_digit()).collect())
+    }
+}
+
+/// `apverif replay <file>`: rebuild the recorded case, run the implementation and the model on it again and
+/// show both; exit 1 while they still disagree (or the recorded implementation behaviour still reproduces)
+pub fn replay(path: &str, driver_path: &str) -> i32 {
+    let Ok(text) = std::fs::read_to_string(path) else {
+        eprintln!("cannot read {path}");
+        return 2;
+    };
+    if field(&text, "obligation").is_some() {
+        println!("{path}: a proof obligation / correspondence that no longer checks (no failing input was found):\n{text}");
+        return 1;
+    }
+    let unhex = |k: &str| crate::util::unhex_str(&field(&text, k).unwrap_or_default());
+    let kind = match field(&text, "kind").as_deref() {
+        Some("Lex") => Kind::Lex,
+        Some("Parse") => Kind::Parse,
+        _ => Kind::Run,
+    };
+    let mut case = Case::new(kind, unhex("source_hex"));
+    case.path = unhex("path_hex");
+    case.stdin = unhex("stdin_hex");
+    case.rng = field(&text, "rng").unwrap_or_default().split(',').filter_map(|x| x.parse().ok()).collect();
+    case.fuel = field(&text, "fuel").and_then(|x| x.parse().ok()).unwrap_or(10000);
+    case.tags = field(&text, "tags").unwrap_or_default().split(',').filter(|t| !t.is_empty()).map(|t| t.to_string()).collect();
+    for e in field(&text, "files_hex").unwrap_or_default().split(',').filter(|e| !e.is_empty()) {
+        if let Some((p, c)) = e.split_once('=') {
+            let p = crate::util::unhex_str(p);
+            case.files.push((p, c.strip_prefix('f').map(crate::util::unhex_str)));
+        }
+    }
+    let what = field(&text, "what").unwrap_or_default();
+    let recorded_impl = field(&text, "implementation").unwrap_or_default();
+    println!("property   : {}", field(&text, "property").unwrap_or_default());
+    println!("failure    : {what}");
+    println!("source     : {:?}", case.src);
+    // files of the case are materialised next to the main program for the implementation
+    let dir = crate::props4::scratch_dir("replay");
+    if !case.files.is_empty() && !case.path.is_empty() {
+        for (p, c) in &case.files {
+            let full = dir.join(p.trim_start_matches('/'));
+            match c {
+                Some(c) => {
+                    std::fs::create_dir_all(full.parent().unwrap()).ok();
+                    std::fs::write(full, c).ok();
+                }
+                None => {
+                    std::fs::create_dir_all(full).ok();
+                }
+            }
+        }
+    }
+    let mut d = Driver::spawn(driver_path);
+    let out = evaluate(&mut d, &case);
+    let _ = std::fs::remove_dir_all(&dir);
+    println!("implementation now : {}", out.impl_rec);
+    println!("model now          : {}", out.model_rec);
+    println!("recorded impl      : {recorded_impl}");
+    let still = if what == "model-disagreement" { !out.agree } else { !out.agree || out.impl_rec == recorded_impl };
+    println!("{}", if still { "the recorded failure still reproduces" } else { "the recorded failure no longer reproduces" });
+    if still { 1 } else { 0 }
 }
